@@ -35,7 +35,9 @@ TECHNIQUE = ("Coq proof: (1) index discipline, key uniqueness and provenance as 
              "of the parse-loop invariant; (2) the un-parser theorem: executable Gallina render/apply_items/occs/run_inv for "
              "invocation trees, a simulation lemma per item kind (token loop = meaning of the item, for all states and any rest), "
              "induction over the item list and over the command tree up to parse_top, conservation via C07's abstract fold and "
-             "C06's phase frames, the index rule of react folded over the occurrences) + extracted-model/implementation "
+             "C06's phase frames, the index rule of react folded over the occurrences; third pass: the same simulation for the lifted "
+             "class with new step lemmas for = spellings, terminators and MaybeHyphenValue exits, composition with C09's closed form "
+             "of the globals merge, refutation witness for the positional pending bound) + extracted-model/implementation "
              "correspondence on the complete matches + python un-parser")
 LEVEL_TEXT = ("Machine-checked theorems (Coq 8.16, closed under the global context).  (a) For every command accepted by the "
               "validity gate (class: no short flag-subcommands) and every token list, at every level: pairwise distinct keys, "
@@ -51,12 +53,21 @@ LEVEL_TEXT = ("Machine-checked theorems (Coq 8.16, closed under the global conte
               "occurrence groups reported per argument are exactly the invocation's: nothing dropped, duplicated, reordered, "
               "invented or moved; split only by the declared delimiter); the subcommand chain is kept; the reported indices are "
               "the closed form denote_idx (one per stored value, one for an option name given by flag) and the index events of a "
-              "level strictly increase in argv order.  Non-vacuity examples exercise every item kind and spelling.")
-LEVEL_NOTE = ("Outside the conventional class (-- directly after an open multi-valued positional run, dont_delimit_trailing_values, last, trailing_var_arg, terminators, require_equals, hyphen "
-              "values, low-index multiples, allow_missing_positional, flag/external subcommands, ignore_errors, "
+              "level strictly increase in argv order.  Non-vacuity examples exercise every item kind and spelling.  "
+              "(c) Third pass: positional lookup is by key (characterisation of get_pos, invariance under any permutation of the "
+              "declarations); delimiter splitting is byte level for all byte strings and keeps every piece, OsString values are never "
+              "rejected; the whole of (b) (loop, level, tree, parse_top, conservation, indices) for the lifted class convx/wfx_items/"
+              "wfx_inv: require_equals (spelled --o=v / -o=v), value terminators incl. the terminator token, hyphen and negative-"
+              "number values of options; parse_top of a rendered tree WITH global arguments = the meaning with C09's final map "
+              "inserted at every level (closed form, old and lifted class); pending buffer: opens empty, grows by one token while "
+              "below max, every accepted occurrence has min <= #values <= max (the literal bound is refuted for multi-valued "
+              "positionals, crate agrees: TooManyValues).")
+LEVEL_NOTE = ("Outside the (lifted) class (-- directly after an open multi-valued positional run, dont_delimit_trailing_values, last, trailing_var_arg, hyphen "
+              "values of positionals, values after -- for commands with terminators/require_equals/hyphen options, require_equals options given without a value, low-index multiples, allow_missing_positional, flag/external subcommands, ignore_errors, "
               "args_conflicts_with_subcommands) conservation is checked by the python un-parser / model "
-              "comparison only; conv is stated on the built command (decidable by computation); the composition with the global-"
-              "value merge is proved only for trees without globals (the merge itself is C09's).  Trusted: Coq kernel, extraction, "
+              "comparison only; conv/convx are stated on the built command (decidable by computation; of the bridge from the command as "
+              "written only the per-argument and settings steps are proved, C02_bridge_*_partial); the pending-buffer bound is proved "
+              "per loop step, not yet as one invariant of the loop.  Trusted: Coq kernel, extraction, "
               "OCaml driver, Rust harness, generators.")
 
 VALS = [b"v", b"w", b"x1", b"1", b"0", b"zz", b"v=w", b"a.b", "é".encode(), b"3", b"=", b"e=", b"long-value", b"x y"]
